@@ -85,6 +85,19 @@ func (c *context) AssignActions() bool {
 		}
 	}
 
+	// The elements of a 'x*!' term are filtered by calling their Discard method.
+	for _, rule := range c.ParserGrammar.Rules {
+		if RuleGenerated(rule) != generatedOneOrMoreF {
+			continue
+		}
+		elemType := c.getTermGoType(rule.Prods[1].Terms[0])
+		if elemType != nil && !c.hasDiscardMethod(elemType) {
+			c.Errs.GeneralErrorf(
+				"%v: type %v must have a method Discard() bool to be used with '*!'",
+				strings.TrimSuffix(rule.Name, "+!")+"*!", elemType)
+		}
+	}
+
 	// Check that every rule has been assigned a Go-type.
 	for _, rule := range c.ParserGrammar.Rules {
 		if RuleGenerated(rule) == generatedSPrime {
@@ -153,6 +166,23 @@ func (c *context) AssignActions() bool {
 	}
 
 	return !c.Errs.HasError()
+}
+
+// hasDiscardMethod returns whether a variable of type typ has a method with the
+// signature Discard() bool.
+func (c *context) hasDiscardMethod(typ gotypes.Type) bool {
+	obj, _, _ := gotypes.LookupFieldOrMethod(
+		typ, true, c.ParserType.Obj().Pkg(), "Discard")
+	method, ok := obj.(*gotypes.Func)
+	if !ok {
+		return false
+	}
+	sig := method.Type().(*gotypes.Signature)
+	if sig.Params().Len() != 0 || sig.Results().Len() != 1 {
+		return false
+	}
+	result, ok := sig.Results().At(0).Type().Underlying().(*gotypes.Basic)
+	return ok && result.Kind() == gotypes.Bool
 }
 
 func (c *context) getActionMethods() map[string][]*actionMethod {
